@@ -127,7 +127,7 @@ def lookup_case(draw):
     start = draw(st.sampled_from(STARTS))
     step = draw(st.sampled_from(STEPS))
     n = draw(st.integers(1, 60))
-    built = draw(st.sampled_from(["range_dim", "plain", "plain", "int_axis"]))
+    built = draw(st.sampled_from(["range_dim", "plain", "plain", "int_axis", "extended_then_cropped", "decimated"]))
     qi = draw(st.integers(0, n - 1))
     qkind = draw(st.sampled_from(["on", "ulp_below", "ulp_above", "mid", "first", "last", "below", "above", "just_above_last", "free"]))
     frac = draw(st.floats(0.01, 0.99))
@@ -158,6 +158,27 @@ def check_lookup(spec, ctx):
         if coords.size == 0:
             return
         arr = xr.DataArray(np.zeros(coords.size), dims=("time",), coords={"time": var})
+    elif spec["built"] in ("extended_then_cropped", "decimated"):
+        # an axis that has a history: widened with extend_dim and cut back to where it was (extend_dim records start / stop attributes,
+        # cropping keeps them), or every other sample of a finer helper-built axis (the 'step' attribute is then stale).  Lookups go by
+        # the coordinates the array HAS
+        if spec["built"] == "decimated":
+            var = arrays.create_range_dim("time", start=start, stop=start + n * step, step=step / 2)
+            base = xr.DataArray(np.zeros(var.size), dims=("time",), coords={"time": var})
+            arr = base.isel(time=slice(None, None, 2))
+        else:
+            var = arrays.create_range_dim("time", start=start, stop=start + n * step, step=step)
+            base = xr.DataArray(np.zeros(var.size), dims=("time",), coords={"time": var})
+            if var.size < 1:
+                return
+            wide = arrays.extend_dim(base, "time", start=start - 3.5 * step, stop=start + (n + 3.5) * step)
+            k0 = int(np.argmin(np.abs(wide.coords["time"].values - float(var.data[0]))))
+            arr = wide.isel(time=slice(k0, k0 + var.size))
+        coords = np.asarray(arr.coords["time"].values, dtype=float)
+        if coords.size == 0:
+            return
+        if coords.size > 1:
+            step = float(coords[1] - coords[0])
     elif spec["built"] == "int_axis":
         # integer-typed coordinates (range(), np.arange) including negative ones; queries stay real numbers
         istart, istep = int(round(start)) - 5, max(1, int(round(step)))
